@@ -18,8 +18,8 @@ INIT = [("a", (2,), 0, False), ("b", (2, 1), 4, False)]
 INIT_M = [("m", (2, 2), 2, False), ("p", (), 0, False, ("val", 2.0))]
 CORE = dict(ops2=("add", "sub", "mul"), ops1=("neg", "sum0"), views=("rev",), consts=("A2", "s2"))
 FULL = dict(
-    ops2=("add", "sub", "mul", "div", "matmul", "max", "cat", "where"),
-    ops1=("neg", "sum0", "sq2", "exp", "cube", "sum", "mean_1"),
+    ops2=("add", "sub", "mul", "div", "matmul", "max", "cat", "where", "addw", "subw", "mseq_xyx", "aseq_xyx"),
+    ops1=("neg", "sum0", "sq2", "exp", "cube", "sum", "mean_1", "mseq3", "mseq4", "aseq3"),
     views=("rev", "T", "flat", "na", "i0"),
     consts=("A2", "s2"),
 )
